@@ -37,6 +37,8 @@ type RefInput struct {
 	// PreSet: options that already have an explicit value before the command
 	// line is parsed (read from INI): id -> element values. Used by C05.
 	PreSet map[string][]interface{}
+	// WalkOnly: stop after the token loop (no defaults/required/command checks)
+	WalkOnly bool
 }
 
 type RefErr struct {
@@ -83,6 +85,7 @@ type RefResult struct {
 	Class        []TokClass // per original argv index
 	Sources      map[string]string
 	TokOpt       map[int][]string // argv index of an option token -> option IDs it named
+	run          *refRun
 }
 
 type helpMarker struct{}
@@ -98,22 +101,22 @@ type tok struct {
 }
 
 type refRun struct {
-	in      *RefInput
-	d       *Decl
-	res     *RefResult
-	ctx     *Cmd
-	chain   []*Cmd // root..ctx
-	sc      scopeT
-	pending []*PosArg
-	posCmd  *Cmd
-	posEl   map[string][]interface{}
-	occ     map[string][]interface{} // opt id -> element values so far
-	occN    map[string]int
-	args    []tok
-	helpOpt *OptInfo
+	in       *RefInput
+	d        *Decl
+	res      *RefResult
+	ctx      *Cmd
+	chain    []*Cmd // root..ctx
+	sc       scopeT
+	pending  []*PosArg
+	posCmd   *Cmd
+	posEl    map[string][]interface{}
+	occ      map[string][]interface{} // opt id -> element values so far
+	occN     map[string]int
+	args     []tok
+	helpOpt  *OptInfo
 	replDone bool
 	curIdx   int
-	optsOf  map[*Cmd][]*OptInfo
+	optsOf   map[*Cmd][]*OptInfo
 }
 
 var helpOptDecl = Opt{ID: "__help", Field: "ShowHelp", Kind: KFunc0, Short: "h", Long: "help", Desc: "Show this help message"}
@@ -518,7 +521,8 @@ loop:
 		}
 	}
 	res.Chain = r.chain[1:]
-	if res.Undetermined != "" {
+	res.run = r
+	if res.Undetermined != "" || in.WalkOnly {
 		return res
 	}
 
@@ -760,4 +764,26 @@ func posReq(p *PosArg) (int, int) {
 		min = n
 	}
 	return min, max
+}
+
+// WalkState is R's state after consuming a prefix of an argument vector.
+type WalkState struct {
+	Ctx     *Cmd
+	Chain   []*Cmd
+	Short   map[string]*OptInfo
+	Long    map[string]*OptInfo
+	Pending []*PosArg
+	HelpOpt *OptInfo
+	NRest   int
+}
+
+// WalkPrefix runs R's token loop over prefix; ok=false if the prefix itself is
+// rejected or undetermined.
+func WalkPrefix(d *Decl, prefix []string) (*WalkState, bool) {
+	ref := Ref(&RefInput{D: d, Args: prefix, WalkOnly: true})
+	if ref.Err != nil || ref.Undetermined != "" {
+		return nil, false
+	}
+	r := ref.run
+	return &WalkState{Ctx: r.ctx, Chain: r.chain, Short: r.sc.short, Long: r.sc.long, Pending: r.pending, HelpOpt: r.helpOpt, NRest: len(ref.Rest)}, true
 }
